@@ -109,7 +109,7 @@ class Gen:
 
     def stmt(self, sc, depth, in_loop, in_func):
         r = self.r
-        k = r.randrange(24)
+        k = r.randrange(26)
         cur = sc[-1]
         ints = self.visible(sc, lambda t: t == "int")
         if depth >= self.max_depth and k in (8, 9, 10, 11, 14, 15, 16): k = 0
@@ -243,6 +243,25 @@ class Gen:
                 out.append(["expr", ["call", ["v", "log"], [["call", ["v", f], [self.int_expr(sc) for _ in range(explicit)], ["v", arr]]], "-"]])
             cur[arr] = "arr:%d" % n
             return out
+        if k in (24, 25):
+            # a name declared again in the same block by a destructuring define (one of the names is new): a fresh
+            # variable; closures made before keep the old one
+            self.count("redeclare-captured")
+            x, y, z, g, h = self.fresh("w"), self.fresh("w"), self.fresh("w"), self.fresh("g"), self.fresh("g")
+            e1, e2, e3, e4 = self.int_expr(sc), self.int_expr(sc), self.int_expr(sc), self.int_expr(sc)   # before the names exist
+            first = [["def", x, e1]] if k == 24 else [["destr", "1", [x, z], ["arr", e1, e2]]]
+            order = [x, y] if r.randrange(2) else [y, x]
+            cur[x] = "int"; cur[y] = "int"
+            if k == 25: cur[z] = "int"
+            return first + [
+                ["def", g, ["func", [], "0", [["ret", ["v", x]]]]],
+                ["def", h, ["func", [], "0", [["opset", x, "add", ["i", "1"]], ["ret", ["v", x]]]]],
+                ["destr", "1", order, ["arr", e3, e4]],
+                ["expr", ["call", ["v", "log"], [["call", ["v", g], [], "-"]], "-"]],
+                ["expr", ["call", ["v", "log"], [["call", ["v", h], [], "-"]], "-"]],
+                ["expr", ["call", ["v", "log"], [["v", x]], "-"]],
+                ["opset", x, "add", ["i", "5"]],
+                ["expr", ["call", ["v", "log"], [["bin", "add", ["call", ["v", g], [], "-"], ["v", x]]], "-"]]]
         if k == 20:
             fns = self.visible(sc, lambda t: t.startswith("fn:"))
             if fns: self.count("call-stmt"); return [["expr", self.call_expr(sc, r.choice(fns), 0)]]
